@@ -186,6 +186,10 @@ func corpusCases(g *vlib.Rng) []Case {
 		{Type: 4, KeyCnt: 1, AType: "p2kh", File: hx([]byte("legal winner thank year wave sausage worth useful legal winner thank yellow")), HdPath: "m/0'/0", HdSubs: 1, Bip39: -1},
 		{Type: 4, KeyCnt: 1, AType: "p2kh", File: hx([]byte("Legal, WINNER thank\tyear wave sausage worth useful legal winner thank yellow\n")), HdPath: "m/0'/0", HdSubs: 1, Bip39: -1},
 		{Type: 4, KeyCnt: 1, AType: "p2kh", File: hx([]byte("legal winner thank year wave sausage worth useful legal winner thank year")), HdPath: "m/0'/0", HdSubs: 1, Bip39: -1},
+		// observation (not a finding): the key index runs past 2^31-1 and silently turns hardened / wraps to 0
+		{Type: 4, KeyCnt: 2, AType: "p2kh", File: pw, HdPath: "m/0/2147483647", HdSubs: 1},
+		{Type: 4, KeyCnt: 2, AType: "p2kh", File: pw, HdPath: "m/0/2147483647'", HdSubs: 1},
+		{Type: 4, KeyCnt: 1, AType: "p2kh", File: pw, HdPath: "m/2147483647'/0", HdSubs: 2},
 		{Type: 4, KeyCnt: 1, AType: "p2kh", File: pw, HdPath: "m", HdSubs: 1},
 		{Type: 4, KeyCnt: 1, AType: "p2kh", File: pw, HdPath: "m/2147483648", HdSubs: 1},
 		{Type: 4, KeyCnt: 1, AType: "p2kh", File: pw, HdPath: "m/-0/+7'", HdSubs: 1},
@@ -468,6 +472,14 @@ func main() {
 		"the elliptic curve in model and theorems is the reference curve of Base/Secp.lean; gocoin's limb arithmetic is tied to it by this run only (and is the subject of C08)",
 		"pub_commutes assumes the named group-law facts of the reference curve (distributivity of scalar multiplication of G over addition mod n, parse∘serialize = id on multiples of G); serialize/WIF round trips assume Base58 decode∘encode = id (C15)",
 		"outside the model: private keys ≡ 0 mod n and sums equal to the point at infinity (gocoin serialises stale coordinates there), public keys with x ≥ p or x off the curve, non-ASCII white space in mnemonics, interactive password entry, .others imports, the -p39 prompt",
+	}
+	r.Extra["observations"] = []string{
+		"HDWallet.Child never skips an index: BIP32 says I_L >= n or k_i = 0 makes index i invalid; Child reduces mod n and returns a key (theorem child_priv_never_skips; probability about 2^-127 per index; ckd_priv_spec / ckd_pub_spec are stated under exactly the guard 'CKD is defined')",
+		"make_wallet adds the key number to hdpath_last in uint32 arithmetic: a last path element within keycnt of 2^31-1 silently turns hardened (non-hardened last) or wraps to index 0 (hardened last) while the label keeps counting (m/0/2147483648); prvidx + hdsub likewise. The wallet accepts such configurations, the model mirrors them (corpus cases), BIP32 has no such path; histogram key wallet-accepted-outside-spec",
+		"secp256k1.BaseMultiply of a scalar = 0 mod n and DeriveNextPublic sums equal to the point at infinity serialise stale coordinates as a valid-looking key (BaseMultiply(0) = 034f355b...71aa, G+(n-1)G = 0379be66...); the model marks these 'outside'; wallet -l would refuse a zero key in VerifyKeyPair",
+		"bip39.MnemonicToByteArray splits on single spaces while its validity check uses strings.Fields: with tabs / double spaces it indexes the word map with \"\" (index 0) and reports a checksum error for a sentence EntropyFromMnemonic accepts; the wallet normalises white space before calling it",
+		"wallet -stdin with more than 1024 password bytes panics in getpass (pass[:n] on a [1024]byte array); the seed-file path reads at most 1024 bytes",
+		"atype=tap lists OP_1 <x-only internal key> without the BIP341/BIP86 tweak (gocoin's own convention; outside this property)",
 	}
 	if err := buildWallet(); err != nil {
 		fmt.Fprintln(os.Stderr, err)
